@@ -42,6 +42,11 @@ Reference level (`Model/TopoAlias.lean`: `TypeOverride`, `Disp` pointers and `Su
                             type or the override: the result aliases topology storage (documented hazard, not a violation).
 * `alias_hazard_sub/disp/override`  concrete heaps: writing through the returned value changes `ToJSON()`
                             (observed on the implementation by the `topo.alias` records; the model predicts each outcome).
+* `caller_edit_of_own_copy_keeps_topology`  what a caller writes into the struct it was handed (every field, or new
+                            `Disp`/`Sub` cells) changes no cell of the topology: serialised form and every later answer
+                            are unchanged.  Together with `lookup_holds` this is the statement the history records check on
+                            the implementation: look up, edit the returned value / the topology, look up again on the SAME
+                            object — the second answer is the fresh resolution on the topology as it stands.
 * `layout_denotes`, `layout_lookup`  every value topology has a closed layout; look-ups through it give the value model's answers.
 -/
 namespace RawPanelVerif.C13
@@ -398,6 +403,23 @@ theorem returned_refs_alias_storage (h : Heap) (t : TopologyR) (c : HWcR) :
     ((resolveAR h t c).subP = ((Map.lookup t.ti c.c.type).getD zeroR).subP ∨
       ∃ a, c.ovP = some a ∧ (resolveAR h t c).subP = (h.tdAt a).subP) := resolveAR_refs h t c
 
+/-- **the caller's own copy**: whatever a caller writes into the struct a look-up handed it (`own`: every field
+overwritten; `ownrefs`: its `Disp`/`Sub` pointed at cells the caller allocates) — the topology, its serialised form and
+therefore the answer of every later look-up are what they were.  (Writing THROUGH the `Disp`/`Sub` references it
+contains is the documented hazard, `alias_hazard_*`.)  The `topo.wedit` records observe both on the implementation; the
+look-ups that follow are judged against the topology as it then stands. -/
+theorem caller_edit_of_own_copy_keeps_topology (h : Heap) (t : TopologyR) (hc : Closed h t) (q : Query) (via : Via)
+    (hv : via = .own ∨ via = .ownrefs) (h' : Heap) (hw : writeVia (execR h t q).2 (execR h t q).1 via = some h') :
+    absTopo h' t = absTopo h t ∧ serialise (absTopo h' t) = serialise (absTopo h t) ∧
+    ∀ q', (execRes (absTopo h' t) q').1 = (execRes (absTopo h t) q').1 := by
+  have he : ∃ z, h' = h ++ z := by
+    rcases hv with rfl | rfl
+    · exact writeOwn_extends h t q _ _ h' hw
+    · exact writeOwn_extends h t q _ _ h' hw
+  obtain ⟨z, rfl⟩ := he
+  rw [absTopo_ext h z t hc]
+  exact ⟨rfl, rfl, fun _ => rfl⟩
+
 /-- every value topology has a closed layout that denotes it (each reference in its own cell, as after
 `json.Unmarshal`), so the theorems above are not about an empty class of heaps -/
 theorem layout_denotes (t : Topology) : Closed (layTopo t).1 (layTopo t).2 ∧ absTopo (layTopo t).1 (layTopo t).2 = t :=
@@ -461,6 +483,14 @@ example :
      aliasOutcome p2.1 exR (execRx p2.1 exR p2.2) .sub = (true, true)) := by decide +kernel
 /-- nothing to write through: component 4 has type 0, no override -/
 example : aliasOutcome exH exR (execR exH exR (.type 4)) .sub = (false, false) := by decide +kernel
+/-- the caller scribbles over the definition `GetHWCtype(1)` handed it / points it at new cells: something was written
+(a cell of the heap for the returned pointer), the topology reads the same; a component copy is the caller's own -/
+example : aliasOutcome exH exR (execR exH exR (.type 1)) .own = (true, false) ∧
+    aliasOutcome exH exR (execR exH exR (.type 1)) .ownrefs = (true, false) ∧
+    aliasOutcome exH exR (execR exH exR (.defId 1)) .own = (true, false) ∧
+    aliasOutcome exH exR (execR exH exR (.xy 1)) .own = (false, false) := by decide +kernel
+example : (writeVia (execR exH exR (.type 1)).2 (execR exH exR (.type 1)).1 .own).map (fun h' => h'.tdAt exH.length) = some scribbled := by
+  decide +kernel
 /-- the look-up itself leaves every cell alone -/
 example : (execR exH exR (.type 1)).2.take exH.length = exH ∧ (execR exH exR (.type 1)).2.length = exH.length + 1 := by decide +kernel
 end aliasex
